@@ -212,6 +212,9 @@ func C11CLI(r *simkit.Run) {
 			r.Probe("checkpoint-added")
 			r.Logf("add checkpoint -> %s", c.dirDesc())
 			r.Sample("add checkpoint -> dir: %s", c.dirDesc())
+			// What status says right now has to be what an apply would do right now (on a database
+			// that was never migrated: start from this checkpoint).
+			c.checkStatus(w.Observe(), "after the checkpoint was added")
 			continue
 		case 4:
 			db, err := observe.Open(w.DB)
